@@ -63,7 +63,7 @@ class Unit:
               ['-D' + x for x in defs] + [self.harness, os.path.join(ENGINE, 'harness_main.c'), '-o', os.path.join(d, 'nat_gen')]
         must(run(cmd, timeout=900), 'gcc generated C')
         objs = []
-        flags = ['-fsanitize=address,undefined', '-fsanitize-recover=address', '-fno-omit-frame-pointer']
+        flags = ['-fsanitize=address,undefined', '-fno-sanitize=vptr', '-fsanitize-recover=address', '-fno-omit-frame-pointer']
         for k, (cc, src, extra) in enumerate([('gcc', self.harness, []), ('gcc', os.path.join(ENGINE, 'harness_main.c'), [])] +
                                              [('g++', self.wrapper, [])] + [('g++', os.path.join(REPO, s), []) for s in self.lib_srcs]):
             o = os.path.join(d, 'nat_real.%d.o' % k)
